@@ -13,8 +13,10 @@
        alive (every `ELaunch true` of i was followed by an `ECmdExit i`), and the status reported for i's
        process name (last `EState _ st` written for that name) is not Running/Launching/Launched;
    (b) at every successful launch `ELaunch true` of an instance i that happens after some shutdown has
-       completed: i was created (`ENewInst`) after the LAST completed shutdown, by a thread that was inside
-       a StartProcess/RestartProcess call (an explicit new start request).
+       completed: i was created (`ENewInst`) after the LAST completed shutdown by a thread that was inside
+       a StartProcess/RestartProcess call (an explicit new start request), or i was created by such a call
+       at any time and was never in the snapshot of a shutdown (the call was still in progress when the
+       shutdown took its snapshot).
    ("Run() returns" is the stuck-freedom clause; it is not part of this monitor - see manifest.d/C03.json.)
 
    Hypotheses of the theorem, both decidable on the history:
@@ -24,13 +26,15 @@
    * `escapes_C03 cs evs = false` : nobody escaped a snapshot, i.e. (1) no instance was created after a
      completed shutdown by Run()'s own spawn loop or outside any API call, and (2) at every
      `EShutdownEnd` every instance that exists and is not in that shutdown's snapshot has already reached
-     `EInstExit` (its goroutine is over).  (2) fails exactly when a StartProcess / RestartProcess / Run()
-     spawn overlaps the shutdown (this subsumes F22): the snapshot is the registry content, the newcomer
-     registers after the shutdown released the registry lock and is launched afterwards.
+     `EInstExit` (its goroutine is over) or is "excused": created by a StartProcess/RestartProcess call,
+     never in a snapshot, and not yet begun by any goroutine (`EBegin`).  So an explicit start that overlaps
+     the shutdown is INSIDE the theorem (it waits for the registry lock that the shutdown holds); (2) fails
+     when Run()'s spawn loop overlaps the shutdown (F22) or - only in the model, not in the code - when an
+     instance was spawned without having been registered.
    No well-formedness condition on the configuration is needed. *)
 From Coq Require Import List ZArith NArith Bool.
 From PC.Base Require Import Assoc.
-From PC.Sup Require Import Model Monitors Sim RelC03 ExC03.
+From PC.Sup Require Import Model Monitors Sim RelC03 RelC03b ExC03.
 Import ListNotations.
 
 Theorem C03_main_partial : forall cs ord evs s,
@@ -56,7 +60,8 @@ Theorem C03_declarative : forall cs ord evs s,
        o_alive (oi_get o i) = false /\ is_running_status (r_status (on_get o (o_nm (oi_get o i)))) = false) /\
   (forall pre th post i, evs = pre ++ (th, ELaunch true) :: post ->
      let o := final_obs cs pre in
-     get th (o_th o) = Some i -> (0 < o_sd_done o)%nat -> In i (o_after_sd_spawn o)).
+     get th (o_th o) = Some i -> (0 < o_sd_done o)%nat ->
+     In i (o_after_sd_spawn o) \/ (o_byapi (oi_get o i) = true /\ o_insnap (oi_get o i) = false)).
 Proof. exact c03_declarative. Qed.
 Print Assumptions C03_declarative.
 
@@ -67,16 +72,22 @@ Theorem C03_refuted : exists cs ord evs s, accept (init cs ord) evs = Some s /\ 
 Proof. exact c03_refuted. Qed.
 Print Assumptions C03_refuted.
 
-(* The seven window flags alone do not suffice either (findings of this proof): (1) a shutdown that
-   completes before Run() is called, (2) a StartProcess that overlaps the shutdown.  Both histories are
-   accepted, hit no window at all, and the monitor is false on them: the `escapes_C03` hypothesis is needed. *)
+(* The seven window flags alone do not suffice either (finding of this proof): a shutdown that completes
+   before Run() is called - Run() then launches everything.  Accepted, no window at all, monitor false:
+   part (1) of the `escapes_C03` hypothesis is needed. *)
 Theorem C03_windows_not_enough :
   (exists s, accept (init c03_cs false) evs_c03_run_after = Some s) /\
-  any_window (final_obs c03_cs evs_c03_run_after) = false /\ holds_C03 c03_cs evs_c03_run_after = false /\
-  (exists s, accept (init c03_cs false) evs_c03_start_overlap = Some s) /\
-  any_window (final_obs c03_cs evs_c03_start_overlap) = false /\ holds_C03 c03_cs evs_c03_start_overlap = false.
+  any_window (final_obs c03_cs evs_c03_run_after) = false /\ holds_C03 c03_cs evs_c03_run_after = false.
 Proof. exact c03_windows_not_enough. Qed.
 Print Assumptions C03_windows_not_enough.
+
+(* a StartProcess that overlaps the shutdown (creates its instance before the snapshot, registers and launches
+   it after ShutDownProject returned) satisfies both hypotheses: the theorem covers such histories *)
+Example C03_start_overlap_covered :
+  (exists s, accept (init c03_cs false) evs_c03_start_overlap = Some s) /\
+  W_C03 (final_obs c03_cs evs_c03_start_overlap) = false /\ escapes_C03 c03_cs evs_c03_start_overlap = false /\
+  holds_C03 c03_cs evs_c03_start_overlap = true.
+Proof. exact c03_start_overlap_covered. Qed.
 
 (* non-vacuity: a 53-event history (Run, launch, ShutDownProject with signal / exit / end of the process,
    Run returns, then an explicit StartProcess that launches a new instance) is accepted, satisfies both
